@@ -77,6 +77,322 @@ fn real_noise() {
 
 type Bad = (String, String, String); // (key suffix, expected, observed)
 
+
+// ---------------------------------------------------------------------------------------------
+// Mapping-agnostic path. The property fixes the samplers' OUTPUT (bounds, the same signed value in every RNS
+// component, the distribution), not how generator output is turned into a sample: how many bytes are read
+// per coefficient, through which RngCore entry point, which bits count. The sections below first compare
+// with the reference mapping of the pinned commit (fast, pointwise). A mismatch there is NOT a violation:
+// it sends the case here, where the structure of the sampler is discovered by probing and the exhaustive
+// families are rebuilt on the discovered structure. Verdicts: `Ok` (the property clause holds for the
+// discovered structure), `Bad` (it does not: bound / RNS consistency / distribution), `Undecided` (the
+// structure is none of the recognised ones: reported as not exhaustive, never as a violation).
+// (False alarm of 2026-10-03 on two behaviour-preserving refactors, DESIGN §10.)
+// ---------------------------------------------------------------------------------------------
+
+#[derive(Clone, Debug)]
+pub enum Agn {
+    Ok { steps: u64, note: String },
+    Undecided(String),
+    Bad { key: String, expected: String, observed: String },
+}
+
+fn agn_out(section: &str, a: Agn) -> CaseOut {
+    match a {
+        Agn::Ok { steps, note } => CaseOut::pass(true, h64(&("agnostic", note.as_str())), steps),
+        Agn::Undecided(why) => CaseOut::undecided(&format!("{section}: {why}")),
+        Agn::Bad { key, expected, observed } => CaseOut::fail(format!("{section}:{key}"), expected, observed),
+    }
+}
+
+const AGN_BIG: u64 = (1u64 << 61) - 1; // decoding modulus (2^61-1, prime): component 0 of every agnostic run
+const AGN_MAX_BLOCK: usize = 64;
+
+/// Runs a sampler over `script` for n coefficients with moduli [AGN_BIG] ++ moduli; returns the signed values
+/// (decoded from component 0, |v| <= bound enforced, every other component compared) and the consumption record.
+fn agn_run(
+    which: &str,
+    moduli: &[u64],
+    script: &[u8],
+    n: usize,
+    bound: i64,
+) -> Result<(Vec<i64>, usize, u64, u64, u64, bool), Agn> {
+    let mut mods = vec![AGN_BIG];
+    mods.extend_from_slice(moduli);
+    let k = mods.len();
+    let p = parms(n, &mods);
+    let mut dest = vec![u64::MAX; n * k];
+    let mut rng = Script::new(script);
+    let r = guard(|| match which {
+        "cbd" => sample::centered_binomial(&mut rng, &p, &mut dest),
+        _ => sample::ternary(&mut rng, &p, &mut dest),
+    });
+    if let Err(pn) = r {
+        return Err(Agn::Bad { key: format!("panic:{}", panic_class(&pn)), expected: format!("{which} sampler returns for every generator output (moduli {mods:?})"), observed: pn });
+    }
+    let mut vals = Vec::with_capacity(n);
+    for i in 0..n {
+        let o = dest[i];
+        let v = if o <= bound as u64 {
+            o as i64
+        } else if o >= AGN_BIG - bound as u64 && o < AGN_BIG {
+            -((AGN_BIG - o) as i64)
+        } else {
+            return Err(Agn::Bad { key: "bound".into(), expected: format!("coefficient {i}: a residue of a signed value of magnitude <= {bound} modulo 2^61-1"), observed: format!("{o}") });
+        };
+        for (j, &q) in mods.iter().enumerate().skip(1) {
+            let e = signed_residue(v, q);
+            if dest[i + j * n] != e {
+                return Err(Agn::Bad { key: "rns-consistency".into(), expected: format!("coefficient {i} = {v}: component {j} (q={q}) = {e}"), observed: format!("{}", dest[i + j * n]) });
+            }
+        }
+        vals.push(v);
+    }
+    Ok((vals, rng.consumed(), rng.n32, rng.n64, rng.nfill, rng.overrun))
+}
+
+fn cbd_agnostic_uncached(moduli: &[u64]) -> Agn {
+    let und = |s: String| Agn::Undecided(format!("centered binomial sampler: {s}; the distribution clause is not decided (bounds and RNS consistency were still enforced on every probe)"));
+    // 1. block size: zero script
+    let n0 = 32usize;
+    let zeros = vec![0u8; AGN_MAX_BLOCK * 512];
+    let (v0, c0, a32, a64, afill, over) = match agn_run("cbd", moduli, &zeros[..AGN_MAX_BLOCK * n0], n0, 21) {
+        Ok(x) => x,
+        Err(a) => return a,
+    };
+    if over || c0 == 0 || c0 % n0 != 0 {
+        return und(format!("reads {c0} bytes for {n0} coefficients (not a fixed block of at most {AGN_MAX_BLOCK} bytes per coefficient)"));
+    }
+    let b = c0 / n0;
+    if v0.iter().any(|&v| v != 0) {
+        return und("the all-zero generator output does not give the value 0".into());
+    }
+    for n in [1usize, 7] {
+        match agn_run("cbd", moduli, &zeros[..AGN_MAX_BLOCK * n], n, 21) {
+            Ok((_, c, _, _, _, o)) if !o && c == b * n => {}
+            Ok((_, c, _, _, _, _)) => return und(format!("reads {c} bytes for {n} coefficients but {c0} for {n0}")),
+            Err(a) => return a,
+        }
+    }
+    // 2. single-bit probes
+    let nb = 8 * b;
+    let mut script = vec![0u8; nb * b];
+    for i in 0..nb {
+        script[i * b + i / 8] |= 1 << (i % 8);
+    }
+    let (vb, _, _, _, _, _) = match agn_run("cbd", moduli, &script, nb, 21) {
+        Ok(x) => x,
+        Err(a) => return a,
+    };
+    if vb.iter().any(|&v| v.abs() > 1) {
+        return und("a single generator bit changes the value by more than one".into());
+    }
+    let pos: Vec<usize> = (0..nb).filter(|&i| vb[i] == 1).collect();
+    let neg: Vec<usize> = (0..nb).filter(|&i| vb[i] == -1).collect();
+    let ign: Vec<usize> = (0..nb).filter(|&i| vb[i] == 0).collect();
+    if pos.len() > 24 || neg.len() > 24 {
+        return Agn::Bad { key: "distribution".into(), expected: "21 generator bits counted positively and 21 negatively per coefficient".into(), observed: format!("{} positive, {} negative bits of a {b}-byte block", pos.len(), neg.len()) };
+    }
+    // 3. additivity on exhaustive halves and a cross family
+    let mut steps = 0u64;
+    let set = |blk: &mut [u8], bits: &[usize], pat: u32| {
+        for (t, &i) in bits.iter().enumerate() {
+            if (pat >> t) & 1 == 1 {
+                blk[i / 8] |= 1 << (i % 8);
+            }
+        }
+    };
+    const RUN: usize = 1 << 14;
+    for (half, bits, sign) in [("positive", &pos, 1i64), ("negative", &neg, -1i64)] {
+        let total = 1u32 << bits.len();
+        let mut pat = 0u32;
+        while pat < total {
+            let n = RUN.min((total - pat) as usize);
+            let mut sc = vec![0u8; n * b];
+            for i in 0..n {
+                set(&mut sc[i * b..(i + 1) * b], bits, pat + i as u32);
+            }
+            let (v, _, _, _, _, _) = match agn_run("cbd", moduli, &sc, n, 21) {
+                Ok(x) => x,
+                Err(a) => return a,
+            };
+            for i in 0..n {
+                let e = sign * (pat + i as u32).count_ones() as i64;
+                if v[i] != e {
+                    return und(format!("the {half} bits {bits:?} do not act additively (pattern {:#x} gives {} instead of {e})", pat + i as u32, v[i]));
+                }
+            }
+            steps += n as u64;
+            pat += n as u32;
+        }
+    }
+    let masks = |len: usize| -> Vec<u32> {
+        let full = if len >= 32 { u32::MAX } else { (1u32 << len) - 1 };
+        let mut m = vec![0, full, 0x5555_5555 & full, 0xAAAA_AAAA & full, 1 & full, full & !1, 0x00FF_00FF & full, full >> (len / 2)];
+        m.dedup();
+        m
+    };
+    let mut sc = vec![];
+    let mut exp = vec![];
+    for &a in &masks(pos.len()) {
+        for &m in &masks(neg.len()) {
+            for z in [0u32, u32::MAX] {
+                let mut blk = vec![0u8; b];
+                set(&mut blk, &pos, a);
+                set(&mut blk, &neg, m);
+                let zi: Vec<usize> = ign.iter().cloned().take(32).collect();
+                set(&mut blk, &zi, z);
+                if z != 0 {
+                    for &i in ign.iter().skip(32) {
+                        blk[i / 8] |= 1 << (i % 8);
+                    }
+                }
+                sc.extend_from_slice(&blk);
+                exp.push(a.count_ones() as i64 - m.count_ones() as i64);
+            }
+        }
+    }
+    let n = exp.len();
+    let (v, _, _, _, _, _) = match agn_run("cbd", moduli, &sc, n, 21) {
+        Ok(x) => x,
+        Err(a) => return a,
+    };
+    if let Some(i) = (0..n).find(|&i| v[i] != exp[i]) {
+        return und(format!("positive, negative and ignored bits do not combine additively (case {i}: {} instead of {})", v[i], exp[i]));
+    }
+    steps += n as u64;
+    if pos.len() != 21 || neg.len() != 21 {
+        return Agn::Bad {
+            key: "distribution".into(),
+            expected: "centered binomial distribution of 21 positive and 21 negative fair bits (variance 10.5, support [-21, 21])".into(),
+            observed: format!("value = popcount of {} bits minus popcount of {} bits of a {b}-byte block (validated on every pattern of either half)", pos.len(), neg.len()),
+        };
+    }
+    Agn::Ok { steps, note: format!("cbd block {b} bytes (next_u32 {a32}, next_u64 {a64}, fill_bytes {afill} per {n0} coefficients), 21+21 bits") }
+}
+
+fn agn_cached(kind: &str, moduli: &[u64], f: impl FnOnce() -> Agn) -> Agn {
+    use std::collections::HashMap;
+    use std::sync::{Mutex, OnceLock};
+    static CACHE: OnceLock<Mutex<HashMap<(String, Vec<u64>), Agn>>> = OnceLock::new();
+    let c = CACHE.get_or_init(Default::default);
+    let key = (kind.to_string(), moduli.to_vec());
+    if let Some(a) = c.lock().unwrap().get(&key) {
+        return match a {
+            // steps are counted once
+            Agn::Ok { note, .. } => Agn::Ok { steps: 0, note: note.clone() },
+            other => other.clone(),
+        };
+    }
+    let a = f();
+    c.lock().unwrap().insert(key, a.clone());
+    a
+}
+
+pub fn cbd_agnostic(moduli: &[u64]) -> Agn {
+    agn_cached("cbd", moduli, || cbd_agnostic_uncached(moduli))
+}
+
+/// Ternary sampler with a changed mapping: recognised when every attempt is one `next_u32` draw. Then ALL 2^32
+/// first draws are classified (a draw that makes the sampler take a second one is a rejection) and the three
+/// classes must have the same size.
+fn tern_agnostic_uncached(moduli: &[u64]) -> Agn {
+    let und = |s: String| Agn::Undecided(format!("ternary sampler: {s}; the distribution clause is not decided (range and RNS consistency were still enforced on every probe)"));
+    let zeros = vec![0u8; 64 * 64];
+    let (_, c0, n32, n64, nfill, over) = match agn_run("ternary", moduli, &zeros, 32, 1) {
+        Ok(x) => x,
+        Err(a) => return a,
+    };
+    if over || n64 != 0 || nfill != 0 || n32 == 0 || c0 != 4 * n32 as usize {
+        return und(format!("does not draw one u32 per attempt ({c0} bytes, next_u32 {n32}, next_u64 {n64}, fill_bytes {nfill} for 32 coefficients)"));
+    }
+    let threads = 16u64;
+    let span = (1u64 << 32) / threads;
+    let results: Vec<Result<[u64; 4], Agn>> = std::thread::scope(|sc| {
+        let hs: Vec<_> = (0..threads)
+            .map(|t| {
+                sc.spawn(move || -> Result<[u64; 4], Agn> {
+                    heathcliff_thread_init();
+                    let mut counts = [0u64; 4];
+                    const W: usize = 1 << 16;
+                    let mut bytes = vec![0u8; 4 * W];
+                    let mut lo = t * span;
+                    while lo < (t + 1) * span {
+                        for i in 0..W {
+                            bytes[4 * i..4 * i + 4].copy_from_slice(&((lo + i as u64) as u32).to_le_bytes());
+                        }
+                        let (v, c, _, _, _, over) = agn_run("ternary", moduli, &bytes, W, 1)?;
+                        if !over && c == 4 * W {
+                            for x in v {
+                                counts[(x + 1) as usize] += 1;
+                            }
+                        } else {
+                            // a rejection somewhere in the window: classify the draws one at a time
+                            for i in 0..W {
+                                let mut one = [0u8; 16];
+                                one[..4].copy_from_slice(&bytes[4 * i..4 * i + 4]);
+                                let (v, c, _, _, _, _) = agn_run("ternary", moduli, &one, 1, 1)?;
+                                if c == 4 {
+                                    counts[(v[0] + 1) as usize] += 1;
+                                } else {
+                                    counts[3] += 1;
+                                }
+                            }
+                        }
+                        lo += W as u64;
+                    }
+                    Ok(counts)
+                })
+            })
+            .collect();
+        hs.into_iter().map(|h| h.join().unwrap_or_else(|_| Err(Agn::Undecided("ternary sampler: probe thread died".into())))).collect()
+    });
+    let mut counts = [0u64; 4];
+    for r in results {
+        match r {
+            Ok(c) => (0..4).for_each(|i| counts[i] += c[i]),
+            Err(a) => return a,
+        }
+    }
+    if counts[0] != counts[1] || counts[1] != counts[2] {
+        return Agn::Bad {
+            key: "class-counts".into(),
+            expected: "over ALL 2^32 u32 draws the classes -1, 0, +1 have the same size (the remaining draws are rejected and redrawn)".into(),
+            observed: format!("(-1, 0, +1, rejected) = {counts:?}"),
+        };
+    }
+    Agn::Ok { steps: 1 << 32, note: format!("ternary one u32 per attempt, classes of {} draws, {} rejected", counts[0], counts[3]) }
+}
+
+pub fn tern_agnostic(moduli: &[u64]) -> Agn {
+    // the classification of the 2^32 draws does not depend on the moduli: enumerated once (decoding modulus only);
+    // per moduli set: RNS consistency on 2^18 lattice draws (enforced inside agn_run)
+    let global = agn_cached("ternary-classes", &[], || tern_agnostic_uncached(&[]));
+    if !matches!(global, Agn::Ok { .. }) || moduli.is_empty() {
+        return global;
+    }
+    agn_cached("ternary", moduli, || {
+        let n = 1usize << 16;
+        let mut steps = 0u64;
+        for part in 0..4u64 {
+            let mut bytes = Vec::with_capacity(4 * n + 64);
+            for i in 0..n as u64 {
+                let x = part * n as u64 + i;
+                bytes.extend_from_slice(&(((x << 14) | (x * 0x9E5 & 0x3FFF)) as u32).to_le_bytes());
+            }
+            bytes.extend_from_slice(&[0u8; 64]);
+            if let Err(a) = agn_run("ternary", moduli, &bytes, n, 1) {
+                return a;
+            }
+            steps += n as u64 * moduli.len() as u64;
+        }
+        match &global {
+            Agn::Ok { note, .. } => Agn::Ok { steps, note: note.clone() },
+            _ => unreachable!(),
+        }
+    })
+}
+
 // ---------------------------------------------------------------------------------------------
 // centered binomial
 // ---------------------------------------------------------------------------------------------
@@ -178,11 +494,8 @@ fn check_cbd(c: &CbdCase, section: &str) -> CaseOut {
         );
     }
     if rng.overrun || rng.consumed() != 6 * n || rng.n32 != 0 || rng.n64 != 0 || rng.nfill != n as u64 {
-        return CaseOut::fail(
-            format!("{section}:consumption"),
-            format!("6 bytes per coefficient by fill_bytes ({} coefficients)", n),
-            format!("consumed {} bytes, fill_bytes calls {}, next_u32 {}, next_u64 {}", rng.consumed(), rng.nfill, rng.n32, rng.n64),
-        );
+        // not the reference mapping (6 bytes per coefficient through fill_bytes): decided on the discovered structure instead
+        return agn_out(section, cbd_agnostic(&c.moduli));
     }
     let mut hist = [0u64; 43];
     for i in 0..n {
@@ -193,11 +506,9 @@ fn check_cbd(c: &CbdCase, section: &str) -> CaseOut {
             let e = signed_residue(v as i64, q);
             let o = dest[i + j * n];
             if o != e {
-                return CaseOut::fail(
-                    format!("{section}:wrong-residue"),
-                    format!("bytes {:02x?} -> value hw+ - hw- = {v}; component {j} (q={q}) = {e}", x, ),
-                    format!("{o}"),
-                );
+                // differs from the reference mapping: the verdict is the one of the mapping-agnostic path
+                let _ = (x, e, o);
+                return agn_out(section, cbd_agnostic(&c.moduli));
             }
         }
     }
@@ -367,6 +678,8 @@ fn check_tern(c: &TernCase) -> CaseOut {
     let verified_end = draws.len();
     draws.extend([0u32; 8]);
     match tern_run(&c.moduli, &draws) {
+        // not the reference mapping (one u32 per attempt, widening multiply by 3): decided on the discovered structure
+        Err((k, _, _)) if k == "wrong-value" || k == "consumption" => agn_out("ternary", tern_agnostic(&c.moduli)),
         Err((k, e, o)) => CaseOut::fail(format!("ternary:{k}"), format!("moduli {:?}: {e}", c.moduli), o),
         Ok((counts, pos)) => {
             if pos < verified_end {
@@ -553,20 +866,55 @@ fn check_uni(c: &UniCase) -> CaseOut {
                 return CaseOut::fail("uniform:out-of-range", format!("q={q}: sample below q (accepted draw {:#x})", origin[i + j * n]), format!("{o}"));
             }
             if o != e {
-                return CaseOut::fail(
-                    "uniform:accept-rule",
-                    format!("q={q} component {j} coefficient {i}: accepted draw {:#018x} -> floor(v*q/2^64) = {e} (rejected iff (v*q mod 2^64) >= 2^64 - (2^64 mod q))", origin[i + j * n]),
-                    format!("{o}"),
-                );
+                // not the reference rule (one u64 per attempt, floor(v*q/2^64), rejection of the top remainders). The property
+                // asks for samples below each modulus and a uniform distribution; uniformity of an unknown map of 2^64 draws
+                // cannot be enumerated, so after the range of EVERY produced sample has been enforced the case is undecided.
+                for jj in 0..k {
+                    if let Some(ii) = (0..n).find(|&ii| dest[ii + jj * n] >= c.moduli[jj]) {
+                        return CaseOut::fail("uniform:out-of-range", format!("q={}: sample below q (component {jj} coefficient {ii})", c.moduli[jj]), format!("{}", dest[ii + jj * n]));
+                    }
+                }
+                // necessary condition that survives any mapping: for a small modulus every residue is produced. Generator output =
+                // the Weyl sequence i * 0x9E3779B97F4A7C15 (high and low bits both move), 2^16 coefficients per modulus <= 4097.
+                for &q in c.moduli.iter().filter(|&&q| q <= 4097) {
+                    let nn = 1usize << 16;
+                    let mut sc = Vec::with_capacity(nn * 32);
+                    for i in 0..(nn as u64 * 4) {
+                        sc.extend_from_slice(&i.wrapping_mul(0x9E37_79B9_7F4A_7C15).to_le_bytes());
+                    }
+                    let pp = parms(nn, &[q]);
+                    let mut dd = vec![u64::MAX; nn];
+                    let mut rr = Script::new(&sc);
+                    if let Err(pn) = guard(|| sample::uniform(&mut rr, &pp, &mut dd)) {
+                        return CaseOut::fail(format!("uniform:panic:{}", panic_class(&pn)), format!("q={q}: no panic on the Weyl sequence"), pn);
+                    }
+                    if rr.overrun {
+                        continue;
+                    }
+                    let mut seen = vec![false; q as usize];
+                    for &x in &dd {
+                        if x >= q {
+                            return CaseOut::fail("uniform:out-of-range", format!("q={q}: sample below q"), format!("{x}"));
+                        }
+                        seen[x as usize] = true;
+                    }
+                    if let Some(miss) = seen.iter().position(|&b| !b) {
+                        return CaseOut::fail(
+                            "uniform:residue-never-produced",
+                            format!("q={q}: every residue 0..q-1 occurs among 65536 samples drawn from the Weyl sequence i*0x9E3779B97F4A7C15 (a uniform sampler gives each about {} times)", 65536 / q),
+                            format!("residue {miss} never occurs"),
+                        );
+                    }
+                }
+                return CaseOut::undecided("uniform sampler: accepted draws are not mapped by the reference rule floor(v*q/2^64) with rejection of the top (2^64 mod q) remainders; exact uniformity is not decided (range enforced on every sample)");
             }
         }
     }
     if rng.overrun || rng.consumed() != 8 * draws_total || rng.nfill != 0 {
-        return CaseOut::fail(
-            "uniform:consumption",
-            format!("moduli {:?} family {}: {} u64 draws ({} rejected and retried)", c.moduli, c.family, draws_total, rejected),
-            format!("{} bytes, next_u64 {}, next_u32 {}, fill_bytes {}", rng.consumed(), rng.n64, rng.n32, rng.nfill),
-        );
+        return CaseOut::undecided(&format!(
+            "uniform sampler: values agree with the reference rule but the generator is consumed differently ({} bytes, next_u64 {}, next_u32 {}, fill_bytes {} for {} reference draws)",
+            rng.consumed(), rng.n64, rng.n32, rng.nfill, draws_total
+        ));
     }
     CaseOut::pass(rejected > 0, h64(&(c.family.as_str(), k, rejected > 0)), (n * k) as u64)
 }
@@ -608,7 +956,7 @@ pub fn sections(thorough: bool) -> Vec<Box<dyn AnySection>> {
         .deadline(Duration::from_secs(60)),
     );
     let (cases, bound) = tern_cases(thorough);
-    v.push(E1::new("ternary", &bound, cases.into_iter(), check_tern).deadline(Duration::from_secs(120)));
+    v.push(E1::new("ternary", &bound, cases.into_iter(), check_tern).deadline(Duration::from_secs(900)));
     v.push(
         E1::new(
             "uniform",
